@@ -126,7 +126,7 @@ def _o_gauleg(call):
         return
     COL.ok("C17.rule", ("rule", n, fam))
     if n <= 30 and call.depth == 0 and COL.case is not None:
-        rng = np.random.default_rng(COL.case["sub"])
+        rng = np.random.default_rng((COL.case or {}).get("sub", 0))
         xm, xl = (LD(x1) + LD(x2)) / 2, (LD(x2) - LD(x1)) / 2
         t = (x.astype(LD) - xm) / xl
         grid = np.linspace(-1, 1, 2001).astype(LD)
